@@ -331,6 +331,23 @@ Theorem C06_detect_noref_only_overlapped_original_refuted : ~ detect_noref_only_
 Proof. exact detect_noref_only_overlapped_original_refuted. Qed.
 Print Assumptions C06_detect_noref_only_overlapped_original_refuted.
 
+(* Without reference, records with a symbolic ALT (<DEL>, <DUP>, ...) are never reported (fix b8437fb: they are left out
+   like in re-alignment).  detect_noref_skips_symbolic_statement R is the statement with R for current_rules; the code
+   as it was took '<DEL>' as literal text (a 4-base insertion) and reported REF for every spanning read: witness
+   reference GATCAGTC, record (3, C, <DEL>), read GATCAGTC aligned 8M. *)
+Theorem C06_detect_noref_skips_symbolic :
+  forall (variants : list variant) (start : nat) (cig : cigar) (query quals : list Z) (j a q : nat) (v : variant),
+  sorted_pos (index_from 0 (map normalized variants)) ->
+  In (j, a, q) (detect_noref current_rules variants start cig query quals) ->
+  nth_error (map normalized variants) j = Some v ->
+  is_symbolic v = false.
+Proof. exact detect_noref_skips_symbolic_current. Qed.
+Print Assumptions C06_detect_noref_skips_symbolic.
+
+Theorem C06_detect_noref_skips_symbolic_original_refuted : ~ detect_noref_skips_symbolic_statement original_rules.
+Proof. exact detect_noref_skips_symbolic_original_refuted. Qed.
+Print Assumptions C06_detect_noref_skips_symbolic_original_refuted.
+
 (* --- read pairs ---------------------------------------------------------------------------------- *)
 
 (* "Both primary alignments of a pair contribute" (AlleleDetect.pair_keeps_both_mates_statement: the allele of a
